@@ -586,7 +586,10 @@ func Go(f func()) {
 		f()
 	}()
 }
-func Yield()           {}
+// TimerFires: number of one-shot timeouts that had to expire because every goroutine was blocked
+// (scheduler model only; natively 0).
+func TimerFires() int { return 0 }
+func Yield()          {}
 func WaitAll()         { wg.Wait() }
 func Daemon(f func())  { f() }
 
